@@ -18,11 +18,16 @@ CHECKS = {
         "shipped files are deny-listed with reasons in vlib/envdrive.py.",
     ),
     "C02": (
-        "PBT over (observation config, history): gymnasium Space.contains on every observation, space equality across episodes",
+        "PBT over (observation config, history) + bounded-exhaustive synthetic states per observation class: gymnasium "
+        "Space.contains on every observation, space equality across episodes",
         "Same driver as C01 with observation configurations generated along every axis; after every reset/step the nested "
         "observation is located leaf-by-leaf in the nested space (first offending leaf is the signature), the returned "
         "observation is checked against env.observation_space (flattened or not) and spaces are compared between episodes. "
-        "Exploration.",
+        "Component layer (vlib/checks/c02_components.py): each of the 15 observation classes is built from its ConfigSchema "
+        "and fed mutations of a real describe_state() - every member of every simulator enum x config flags x threshold sets, "
+        "counts from 0 past the top threshold, traffic/load to 10x nominal, absent components, all power-state "
+        "combinations (25k cases enumerated) plus Hypothesis-generated numeric leaves and biased real histories (big FTP "
+        "transfers, DoS bursts, many file creations, session cap). Exploration with an exhaustive finite part.",
         "gymnasium's contains/flatten are trusted; reachable counts are limited by what the generated histories produce "
         "(the component layer adds synthetic states).",
     ),
